@@ -492,7 +492,7 @@ theorem tamper_not_delivered_rtcp {W WC} (ci : Cipher W WC) (hl : Laws ci) (c : 
 /-- **rejected_frame_leaves_no_trace.**  A frame that is rejected (altered, forged, wrong SSRC, plain)
 changes nothing in the receiver — neither the SRTP context nor the remote-SSRC latch — so whatever
 an adversary injects, the genuine packets that follow are treated exactly as if it had never
-arrived.  (True since the repair 568f759: the SSRC of the first packet used to be stored BEFORE
+arrived.  (True since the repair c215d27: the SSRC of the first packet used to be stored BEFORE
 authentication, and one altered first packet silenced the format for the rest of the session.) -/
 theorem rejected_frame_leaves_no_trace {W WC} (ci : Cipher W WC) (r : RecvFmt) (f : Frame W)
     (h : (readRTP ci r f).2 = .decodeError) : (readRTP ci r f).1 = r :=
